@@ -51,7 +51,7 @@ def run_demo(wt, demo_rel):
 
 def ingest(name, outdir, prop):
     patch = os.path.join(outdir, "patch.diff")
-    demo_rel = open(os.path.join(outdir, "DEMO_PATH.txt")).read().strip().lstrip("/")
+    demo_rel = open(os.path.join(outdir, "DEMO_PATH.txt")).read().split()[0].strip().lstrip("/")  # some agents append a remark after the path
     demo_src = os.path.join(outdir, os.path.basename(demo_rel))
     wt = worktree("ingest-" + name)
     meta = dict(name=name, property=prop, ran=[])
